@@ -49,13 +49,13 @@ def _build(op, table_names, stored):
     def one(nm, first=None):
         args = None
         if r.random() < 0.3:
-            args = exerciser.sig_args(r, monitors.M.orig_functions.get(nm), extra)
+            args = exerciser.sig_args(r, monitors.M.orig_functions.get(nm), extra, keyed=nm in exerciser.KEYED)
         if args is not None:
             pass
         elif op['known'] and nm in exerciser.KNOWN_SHAPES and r.random() < 0.7:
             args = exerciser.known_args(r, nm)
         else:
-            args = exerciser.shapes(r, extra, table_names)
+            args = exerciser.shapes(r, extra, table_names, no_functions=nm in exerciser.KEYED)
         if r.random() < 0.1:
             # indexing / slicing whatever is at hand, builtins included
             base = ['name', r.choice(table_names + extra + list(exerciser.HOST_NAMES))]
